@@ -1,4 +1,4 @@
-(* PatternInst.v — oracle entry point for C13: the models (tag 1, 3, 4) and the specs (tag 2, 3)
+(* PatternInst.v — oracle entry point for C13: the models (tag 1, 3, 4, 6, 7) and the specs (tag 2, 3, 6)
    of KeyMatch.v / Glob.v / IpMatch.v behind the generic wire protocol.  No proofs. *)
 From Coq Require Import List NArith Bool.
 From PyCasbin Require Import Base PatBase KeyMatch KeyBind Glob IpMatch.
@@ -33,6 +33,11 @@ Definition doc_flags (p : str) : val :=
   VL [vbool (doc2 p); vbool (doc3 p); vbool (doc4s p); vbool (doc5 p);
       vbool (str_eqb p [cSTAR]); vbool (get2_docs p)].
 
+(* ip_match: what the two arguments were parsed to (family, integer[, prefix length]); 128-bit integers
+   travel as their eight 16-bit groups *)
+Definition vaddr (f : fam) (x : N) : val :=
+  match f with V4 => VL [VN 4; VN x] | V6 => VL (VN 6 :: map VN (groups_of x)) end.
+
 Definition oracle_C13 (tag : N) (v : val) : val :=
   match tag, v with
   (* model: pattern, keys, path variables -> one row per key *)
@@ -61,6 +66,21 @@ Definition oracle_C13 (tag : N) (v : val) : val :=
                   | Ok r => VL [VN 0; vopt vstr r]
                   | Err c => verr c
                   end
+      | None => vbad
+      end
+  (* ip_match: model, documented-form flag, spec, parse of the address, parse of the network *)
+  | 6, VL [a; b] =>
+      match as_str a, as_str b with
+      | Some a, Some b =>
+          VL [ vrb (ip_match a b); vbool (ip_doc a b); vbool (ip_spec a b);
+               match parse_addr a with Some (f, x) => VL [vaddr f x] | None => VL [] end;
+               match parse_network b with Some (f, x, n) => VL [vaddr f x; VN n] | None => VL [] end ]
+      | _, _ => vbad
+      end
+  (* the two renderings of the IPv6 integer with the given eight groups *)
+  | 7, g =>
+      match as_listof as_N g with
+      | Some g => let n := compose 0 g in VL [vstr (render6_full n); vstr (render6_compressed n)]
       | None => vbad
       end
   (* documented-form flags only *)
